@@ -11,6 +11,14 @@ fn main() {
         std::process::exit(2);
     }
     let sub = args[1].clone();
+    if sub == "txnmcase" {
+        // vh txnmcase '<script>': concrete and abstract trace of one `txnm` script
+        let script = args[2..].join(" ");
+        let t = vharness::txn::run_case(&format!("txn-l | {}", script));
+        println!("{}", t);
+        println!("{}", vharness::txn::abstract_trace(&script, &t));
+        return;
+    }
     if sub == "txncase" {
         // vh txncase '<case line>': trace and oracle verdict of one case
         let line = args[2..].join(" ");
@@ -109,7 +117,9 @@ fn main() {
         "lifeq" => vharness::life::run_flush(&dir),
         "c05" => vharness::c05::run(seed, n, thorough, &corpus, &dir),
         "txc" => vharness::txc::run(seed, n, thorough, &corpus, &dir),
+        "txcm" => vharness::txc::run_model(seed, n, thorough, &corpus, &dir),
         "txn" => vharness::txn::run(seed, n, thorough, &corpus, &dir),
+        "txnm" => vharness::txn::run_model(seed, n, thorough, &corpus, &dir),
         "cut" => vharness::cut::run(seed, n, thorough, &corpus, &dir),
         "e2e" => vharness::e2e::run(seed, n, thorough, &corpus, &dir),
         "hostile" => vharness::hostile::run(seed, n, thorough, &corpus, &dir),
